@@ -669,6 +669,9 @@ func (x *Exec) step(st *State, ins ssa.Instruction) {
 		if in.Heap {
 			p := x.allocObj(st, et, in.Comment)
 			fr.regs[in] = &Value{K: KPtr, T: in.Type(), P: p}
+			if privateAlloc(in) {
+				st.private = append(st.private, p)
+			}
 		} else {
 			c := x.cellOf[in]
 			if c == nil {
